@@ -309,6 +309,15 @@ Proof.
 Qed.
 Print Assumptions C15_const_last_initialiser_wins.
 
+(* UnionLayout.const (repaired by 65f681c: no len() of a lib.data.Const): a constant of the same union layout,
+   e.g. the result of from_bits(), is accepted by a union-shaped field and passes through unchanged; a constant
+   of a layout that compares different is refused with ValueError.  All unions, all raw values. *)
+Theorem C15_union_const_passthrough rec fs l' raw : wf_layout (Union fs) = true ->
+  xfield_init rec (Union fs) (XDConst (Union fs) raw) = Okz raw /\
+  (layout_eqb (Union fs) l' = false -> xfield_init rec (Union fs) (XDConst l' raw) = Errz 3).
+Proof. exact (union_const_passthrough rec fs l' raw). Qed.
+Print Assumptions C15_union_const_passthrough.
+
 (* the int-only model used above is the XVal/XMap fragment of the loop *)
 Theorem C15_const_fold_is_generic rec l kvs cur : const_fold rec l kvs cur = gfold (field_init rec) l kvs cur.
 Proof. exact (const_fold_gfold rec l kvs cur). Qed.
